@@ -101,7 +101,7 @@ def pair_job(job):
         res['diff'] = first_diff(r2[1], r3[1])
         res['nfiles'] = len(r2[1])
         res['bytes'] = sum(len(t) for t in r2[1].values())
-    if job.get('effective') and cap and not isinstance(cap[-1][1], str):
+    if job.get('effective') and r2[0] == 'ok' and cap and not isinstance(cap[-1][1], str):
         # the effective configuration of the barectf 2 document IS the effective configuration of the
         # converted tree (dumped with the barectf 3 tag by barectf's own dumper)
         b, cpc = _state['barectf'], _state['cpc']
